@@ -251,6 +251,64 @@ def rule_val(rep, idx):
     rep.add('R5', 'ValDecl::getValue-guarded', ok, 'xcmp.hpp xcmp::ConstProp', detail)
 
 
+def rule_scoped_propagation(rep, idx, rid='R9'):
+    """Names are resolved by scope: a local, formal or procedure may hide a global val of the same name.  Every compile-time value that
+    ConstProp attaches to a name reference must therefore come out of SymbolTable::lookup(current scope, name) -- the one place that
+    implements the hiding rule -- and not from any other table keyed by the bare name."""
+    rep.rule(rid, 'scoping of val propagation: in ConstProp, every value given to a variable reference or used as a system-call number for a '
+             'named call is data-dependent on the result of SymbolTable::lookup(make_pair(getCurrentScope(), name)) (backward slice through '
+             'the locals of the visitor method)', floor=2)
+    rec = idx.record('xcmp::ConstProp')
+    n = 0
+    for m in rec.methods:
+        if m.name != 'visitPost' or m.body is None or not m.params:
+            continue
+        ptype = qt(m.params[0])
+        if not any(t in ptype for t in ('VarRefExpr', 'CallExpr')):
+            continue
+        inits = {}
+        for d in walk(m.body):
+            if d['kind'] == 'VarDecl' and children(d):
+                inits[d['id']] = children(d)[-1]
+        for c in cast.calls_in(m.body):
+            kind, name, did, obj = callee_of(c)
+            if name not in ('setValue', 'setSysCallId'):
+                continue
+            args = cast.call_args(c)
+            if not args:
+                continue
+            # backward slice of the argument through local initialisers
+            seen, todo, hit, foreign = set(), [args[0]], False, []
+            while todo:
+                e = todo.pop()
+                for x in walk(e):
+                    if x['kind'] in ('CXXMemberCallExpr', 'CallExpr'):
+                        k2, n2, d2, o2 = callee_of(x)
+                        if n2 == 'lookup' and any(callee_of(y)[1] == 'getCurrentScope' for y in cast.calls_in(x)):
+                            hit = True
+                        elif n2 in ('find', 'at', 'count') or (x['kind'] == 'CXXMemberCallExpr' and n2 == 'lookup'):
+                            foreign.append('%s at %s' % (n2, pos(x)))
+                    if x['kind'] == 'CXXOperatorCallExpr' and callee_of(x)[1] == 'operator[]':
+                        foreign.append('operator[] at %s' % pos(x))
+                    if x['kind'] == 'DeclRefExpr':
+                        r = (x.get('referencedDecl') or {})
+                        if r.get('kind') == 'VarDecl' and r.get('id') in inits and r['id'] not in seen:
+                            seen.add(r['id'])
+                            todo.append(inits[r['id']])
+            n += 1
+            key = 'ConstProp::visitPost(%s):%s' % (ptype.replace('xcmp::', '').replace(' &', ''), name)
+            # a value that is not derived from any table (a literal, the node's own value) is not a propagation
+            derived = hit or foreign
+            ok = (hit and not foreign) or not derived
+            rep.add(rid, key + ('@%s' % pos(c).split(':')[-1]), ok, pos(c) + ' xcmp::ConstProp::visitPost',
+                    'value derives from SymbolTable::lookup(getCurrentScope(), name)' if hit and not foreign else
+                    'value of the node itself (no table involved)' if not derived else
+                    'the propagated value comes from %s, not (only) from the scoped symbol-table lookup: a local, formal or procedure that hides a '
+                    'global val of the same name is replaced by the global\'s constant' % ', '.join(foreign), nontrivial=derived)
+    if n == 0:
+        raise AnalysisBroken('ConstProp no longer propagates values through setValue / setSysCallId: anchors changed')
+
+
 def rule_genconst(rep, idx):
     rep.rule('R6', 'constant materialisation: CodeBuffer::genConst loads exactly the requested value into exactly the requested register, '
              'as an immediate inside (-65536, 65536) and through one constant-pool word per distinct value outside', floor=10)
@@ -351,6 +409,7 @@ def run(rep, tier):
     from . import c01
     c01.rule_register_discipline(rep, idx, 'R4')
     rule_val(rep, idx)
+    rule_scoped_propagation(rep, idx)
     rule_genconst(rep, idx)
     # R7: constants inside a larger, non-constant expression (import of the template execution of C01-R11 for the shapes with a constant)
 
